@@ -2,12 +2,13 @@
 SPECIFICATION Spec
 CONSTANTS Names <- NamesSmall
           Types <- TypesAll
-          Bodies = {"x"}
+          Bodies <- BodyX
+          Readers <- ReadPlain
           Modes <- ModesTwo
           Mtimes <- MtimesAll
           MaxNodes = 3
           MaxDepth = 3
           MinNodes = 1
           Devs = {}
-INVARIANTS TypeOK RoundTrip ShallowWalk EscapedSafe
+INVARIANTS TypeOK RoundTrip StreamFinite ShallowWalk EscapedSafe
 CHECK_DEADLOCK FALSE
